@@ -31,7 +31,7 @@ GENERATORS = [
 
 def input_digest():
     h = hashlib.sha256()
-    files = sorted(glob.glob('/repo/soupsieve/*.py')) + sorted(glob.glob(os.path.join(HERE, '*.py')))
+    files = sorted(glob.glob(os.path.join(os.environ.get('SOUPVERIF_REPO', '/repo'), 'soupsieve', '*.py'))) + sorted(glob.glob(os.path.join(HERE, '*.py')))
     try:
         import bs4
         files += sorted(glob.glob(os.path.join(os.path.dirname(bs4.__file__), '**', '*.py'), recursive=True))
